@@ -205,7 +205,9 @@ def legacy_spec_truth(rule, txn):
     from tally.modifier_parser import check_all_conditions
     pattern, merchant, category, subcategory, parsed, source, tags = rule
     try:
-        if not re.search(parsed.regex_pattern, txn['description'], re.IGNORECASE):
+        # the CSV path's documented reading (D14h): the pattern is searched, ignoring case, in the UPPER-CASED description
+        # (so `STRASSE` finds `Hauptstraße`); for ASCII descriptions the same as searching the description itself
+        if not re.search(parsed.regex_pattern, txn['description'].upper(), re.IGNORECASE):
             return False
     except re.error:
         return None
@@ -244,6 +246,19 @@ def spec_resolve_tags(eng, rule, t, variables, data_sources=None, written=None):
     return out
 
 
+def spec_globals(f, t, data_sources=None):
+    """the file's top-level variables, evaluated in file order by the harness itself (a variable that cannot be evaluated for this
+    transaction stays undefined) — independent of which variables the engine chooses to evaluate"""
+    from tally import expr_parser as EP
+    vs = {}
+    for name, expr in f.get('variables', {}).items():
+        try:
+            vs[name.lower()] = EP.evaluate_transaction(expr, copy.deepcopy(t), variables=dict(vs), data_sources=data_sources)
+        except EP.ExpressionError:
+            pass
+    return vs
+
+
 def rule_truth(eng, rule, t, gv, data_sources=None):
     from tally import expr_parser as EP
     try:
@@ -277,6 +292,10 @@ def oracle_c01(f, txn, r):
     res = eng.match(copy.deepcopy(t))
     win = next((i for i, rule in enumerate(eng.rules) if truth[i] and rule.category), None)
     want = (eng.rules[win].merchant, eng.rules[win].category, eng.rules[win].subcategory) if win is not None else ('', '', '')
+    if win is not None and len(eng.rules) == len(f['rules']) and all(x.name == y['name'] for x, y in zip(eng.rules, f['rules'])):
+        # what the FILE states for the winning section (not the loader's copy of it): free text to the end of the line
+        w = f['rules'][win]
+        want = (w.get('merchant', w['name']), w.get('category', ''), w.get('subcategory', ''))
     got = (res.merchant, res.category, res.subcategory)
     if got != want:
         fails.append({'class': 'first-match', 'rules': text, 'txn': jtxn(txn), 'observed': got, 'required': want})
@@ -314,10 +333,11 @@ def oracle_c02(f, txn, r):
         gv = eng._evaluate_variables(copy.deepcopy(t))
         want = set()
         aligned = len(eng.rules) == len(f['rules']) and all(x.name == y['name'] for x, y in zip(eng.rules, f['rules']))
+        sg = spec_globals(f, t)
         for k, rule in enumerate(eng.rules):
             tr, variables = rule_truth(eng, rule, t, gv)
             if tr:
-                want |= spec_resolve_tags(eng, rule, t, variables, written=f['rules'][k].get('tags', []) if aligned else None)
+                want |= spec_resolve_tags(eng, rule, t, dict(sg, **variables), written=f['rules'][k].get('tags', []) if aligned else None)
         res = eng.match(copy.deepcopy(t))
         results[mode] = res
         if set(res.tags) != want:
@@ -404,6 +424,10 @@ def oracle_c09(f, txn, r):
             fails.append({'class': 'order-dependent', 'rules': text, 'txn': jtxn(txn),
                           'permuted': [x['name'] for x in perm], 'observed': res_p.category, 'required': res.category})
     return fails
+
+
+UNICODE_DESCRIPTIONS = ['Bäckerei Müller Hauptstraße 5', 'Grosse Strasse 7 STORE', 'ﬁne foods ACME', 'ofﬁce depot 0042', 'Maße und Gewichte',
+                        'Gießerei Weiß GmbH', 'ǆungla bar', 'Caﬀè Roma', 'straße']
 
 
 def oracle_legacy(rows, txn):
@@ -517,6 +541,8 @@ def discriminating_rule(r, txn, variant, idx=0):
     variables = {}
     rule = {'name': f'Disc{idx}', 'match': cond, 'category': f'Disc{idx}', 'subcategory': 'D', 'tags': [f'disc{idx}']}
     k = r.random()
+    if cond.startswith('field.') and r.random() < 0.4:
+        k = 0.0          # a top-level variable over a captured column: undefined for the lines that lack the column
     words = txn['description'].upper().split()
     if k < 0.3:
         variables[f'v_disc{idx}'] = cond
@@ -646,7 +672,7 @@ def run(ctx, prop):
                     corpus_fail.append(pf)
         for i in range(n):
             txn = G.gen_txn(r)
-            f = G.gen_rules_file(r, txn, force_ties=(prop == 'C09' and i % 2 == 0), dup_names=(i % 3 == 0), let_twins=(i % 4 == 1), long_patterns=(prop == 'C09' and i % 4 == 2))
+            f = G.gen_rules_file(r, txn, force_ties=(prop == 'C09' and i % 2 == 0), dup_names=(i % 3 == 0), let_twins=(i % 4 == 1), long_patterns=(prop == 'C09' and i % 4 == 2), walrus_twins=(i % 5 == 3), odd_values=(i % 6 == 5))
             f['transforms'] = f['transforms'] if prop == 'C01' else []
             mode = 'most_specific' if prop == 'C09' else ('first_match' if prop == 'C01' else r.choice(['first_match', 'most_specific']))
             items.append((f, txn, mode))
@@ -724,13 +750,17 @@ def run(ctx, prop):
                 wrapper_impl.append({'description': t2['description'],
                                      'fields': [[k, v] for k, v in (t2.get('field') or {}).items()],
                                      'raw': [[k, v] for k, v in t2.items() if k.startswith('_raw_')]})
-                rows = G.gen_csv_rules(r, txn)
+                ltxn = txn
+                if r.random() < 0.15:
+                    # descriptions whose upper-casing is longer than the text (ß, ligatures): the CSV path searches description.upper()
+                    ltxn = dict(txn, description=r.choice(UNICODE_DESCRIPTIONS))
+                rows = G.gen_csv_rules(r, ltxn)
                 cpath = b.write(f'c{i % 8}.csv', G.render_csv_rules(rows))
                 try:
-                    limpl, lcase, _ = legacy_observe(cpath, txn)
+                    limpl, lcase, _ = legacy_observe(cpath, ltxn)
                     legacy_cases.append(lcase); legacy_impl.append(limpl)
                     if prop == 'C01':
-                        for pf in oracle_legacy(rows, txn):
+                        for pf in oracle_legacy(rows, ltxn):
                             prop_fail.append(pf)
                 except Exception as e:
                     if type(e).__name__ in ('TypeError', 'AttributeError'):
@@ -823,7 +853,7 @@ def run(ctx, prop):
         out = []
         for i in range(4000):
             txn = G.gen_txn(r)
-            f = G.gen_rules_file(r, txn, n=r.choice([2, 3, 4]), force_ties=(prop == "C09"), dup_names=(i % 2 == 0), let_twins=(i % 3 == 0), long_patterns=(prop == "C09" and i % 3 == 1))
+            f = G.gen_rules_file(r, txn, n=r.choice([2, 3, 4]), force_ties=(prop == "C09"), dup_names=(i % 2 == 0), let_twins=(i % 3 == 0), long_patterns=(prop == "C09" and i % 3 == 1), walrus_twins=(i % 4 == 3), odd_values=(i % 5 == 4))
             f['transforms'] = []
             try:
                 for pf in oracle(f, txn_for_engine(txn), r):
@@ -834,7 +864,8 @@ def run(ctx, prop):
                     if any(k in BATCH_RELEVANT[prop] for k in pf['differs_in']):
                         out.append(pf)
                 if prop == 'C01' and i % 4 == 0:
-                    out.extend(oracle_legacy(G.gen_csv_rules(r, txn), txn))
+                    lt = dict(txn, description=r.choice(UNICODE_DESCRIPTIONS)) if i % 8 == 0 else txn
+                    out.extend(oracle_legacy(G.gen_csv_rules(r, lt), lt))
             except Exception:
                 continue
             if out:
